@@ -1472,7 +1472,7 @@ func caseVariantScenarios() []*scenario {
 
 func TestZZVerifC16(t *testing.T) {
 	run := core.NewRun("C16", "fault_enumeration",
-		"scenarios = PRNG-built sequences of agent-local operations (add/re-add/update/remove service with its checks, add/re-add/remove check, check status change and output churn with CheckUpdateInterval 0 | 1h (deferral) | 2ms (timer fires)), external catalog drift (foreign service/check added, entries removed, each IsSame-compared field altered, node meta / tagged addresses changed) and full/partial syncs, executed on the real agent/local.State against a real state.Store behind the RPCs the agent uses. For each scenario the RPCs of its fault-free target sync are recorded and EVERY call position x 6 failure kinds is replayed from scratch (with and without an immediate partial retry, and as a failure persisting into the following syncs), plus the fallback-read position, plus double faults (quick: 16 sampled position/kind pairs per scenario; thorough: all position pairs x 4x4 kinds, capped at 240). After every local step and every sync attempt the flag oracle runs; after every fault-free sync the deregistration and convergence oracles run; each execution ends with the first fault-free full sync. An execution is non-trivial if at least one injected fault fired and the target sync contained a write RPC; distinct by (scenario, fault plan).")
+		"scenarios = PRNG-built sequences of agent-local operations (add/re-add/update/remove service with its checks, add/re-add/remove check, check status change and output churn with CheckUpdateInterval 0 | 1h (deferral) | 2ms (timer fires)), external catalog drift (foreign service/check added, entries removed, each IsSame-compared field altered, node meta / tagged addresses changed) and full/partial syncs, executed on the real agent/local.State against a real state.Store behind the RPCs the agent uses. For each scenario the RPCs of its fault-free target sync are recorded and EVERY call position x 6 failure kinds is replayed from scratch (with and without an immediate partial retry, and as a failure persisting into the following syncs), plus the fallback-read position, plus double faults (quick: 16 sampled position/kind pairs per scenario; thorough: all position pairs x 4x4 kinds, capped at 240). After every local step and every sync attempt the flag oracle runs; after every fault-free sync the deregistration and convergence oracles run; each execution ends with the first fault-free full sync. An execution is non-trivial if at least one injected fault fired and the target sync contained a write RPC; distinct by (scenario, fault plan). DEFERRAL FAMILY (defer_test.go; quick 1200 / thorough 24000 PRNG scenarios in 8 shapes, each inside a testing/synctest bubble = virtual time, no faults): a state with CheckUpdateInterval 2s|10s|1m is registered and full-synced, then 1..4 output-only UpdateCheck calls of one check inside one deferral window (sleeps of 2-10% of the interval), optionally with a status change, catalog drift of the check (output/status/notes/removed), remove + re-register of the check, partial/full syncs inside the window, a second window after expiry, updates around the window end (0.45-1.5 x interval apart), or a mixed soup over several checks; the scenario closes with a sleep of 1.6 x interval, SyncChanges, SyncFull. After every successful full sync catalog == local for every check and service; Output alone is not demanded for a check whose last output-only update is younger than 1.5 x interval. A deferral scenario is non-trivial if it made at least one output-only update.")
 	run.Assume(
 		"the catalog side is the production state.Store driven by EnsureRegistration/DeleteService/DeleteCheck after the same msgpack round trip raft applies; the endpoint's ACL vetting is replaced by injected refusals",
 		"call positions are identified by what the call carries (read:services, register:svc:<id>, deregister:chk:<id>, ...) because the agent walks Go maps: the k-th call differs between executions, the set of positions does not",
@@ -1480,6 +1480,7 @@ func TestZZVerifC16(t *testing.T) {
 		"service tags of a check row and HealthCheck.Type/Interval/Timeout are not compared (derived by the store / never compared by the agent); tags of EnableTagOverride services and consul-prefixed tagged addresses are server-owned",
 		"node-level information (meta, tagged addresses) is drifted but its convergence is only counted, not demanded",
 		"check output is not demanded while the agent holds a pending defer timer for that check (CheckUpdateInterval > 0: the documented output rate limit; the timer marks the check out of sync when it fires). The 1h interval never fires during an execution; with 2ms the monitor waits for the timer to fire (watchdog 5s => inconclusive)",
+		"deferral family: the agent draws the timer delay (interval/2 + random(0, interval)) from the global math/rand source, which the monitor cannot seed: verdicts hold for every delay in that range (Output is demanded only >= 1.5 x interval after the last output-only update; the counters updates-inside-window / two-or-more-updates-in-one-window count only updates < 0.5 x interval after an update that found no window possibly open), the observed timer-callback counts of the window-end and mixed shapes may differ between runs",
 		"executions of the two case-variant scenarios depend on Go map iteration order inside the agent (which spelling reaches the catalog last); their counts may differ by a few between runs, the verdict does not")
 	rng := core.NewRand(core.Seed())
 
@@ -1523,6 +1524,9 @@ func TestZZVerifC16(t *testing.T) {
 		runScenario(run, sc, rng.Fork(uint64(900000+i)), false)
 		run.Count("case_variant_scenarios")
 	}
+
+	// check-output deferral family (CheckUpdateInterval > 0) in virtual time: defer_test.go
+	runDeferFamily(t, run, rng.Fork(777000))
 
 	run.Floor("faults_fired", core.N(3000, 60000))
 	run.Floor("executions_with_two_or_more_faults", core.N(300, 6000))
